@@ -18,7 +18,12 @@ RULE = ("One scenario in each of 10 contexts {plain scenario, outline row} x {no
         "Non-trivial = distinct case with at least one non-pass outcome.")
 ASSUMPTIONS = ["continue_after_failed_step is documented for failed steps; after an undefined/pending/interrupted step both "
                "continuing and stopping are accepted (call log and statuses must match one of the two variants as a whole)",
-               "sequences longer than the bound are not claimed (no random tail)"]
+               "sequences longer than the bound are not claimed (no random tail)",
+               "models assembled by hand through the public constructors are an extra beyond the statement's quantifier "
+               "(it speaks of scenarios, not of how the model was built): covered for rules whose scenarios are added before "
+               "the rule's background / before the rule joins the feature; NOT covered with parametrised (<column>) inherited "
+               "background steps - Rule.add_background() expands the outlines it walks before they know their background, so "
+               "the per-row copies keep the placeholder (seen on the unchanged tree, noted in DESIGN 10, not claimed)"]
 
 OUT8 = ("pass", "fail", "error", "pending", "undefined", "skip", "kbi", "convert")
 CONTEXTS = (("S", 0), ("S", 1), ("S", 2), ("O", 0), ("O", 1), ("O", 2),
@@ -49,7 +54,10 @@ def build(kind, nbg, seq, wip):
         if nbg == 1:
             return (P.F((item, sib), bg=(bgs[0],), tags=ftags),)
         return (P.F((P.R((item, sib), bg=(bgs[1],), tags=rtags),), bg=(bgs[0],), tags=ftags),)
-    item = P.S(own, tags) if kind == "S" else P.O((own,), tags, ncols=len(own), extags=extags)
+    item = P.S(own, tags) if kind in ("S", "SR") else P.O((own,), tags, ncols=len(own), extags=extags)
+    if kind in ("SR", "OR"):
+        # a rule WITHOUT a background of its own under a feature background (nbg == 1), or under none (nbg == 0)
+        return (P.F((P.R((item, sib), tags=rtags),), bg=(seq[0],) if nbg else None, tags=ftags),)
     if nbg == 0:
         f = P.F((item, sib), tags=ftags)
     elif nbg == 1:
@@ -60,14 +68,15 @@ def build(kind, nbg, seq, wip):
 
 
 def run_case(case):
-    kind, nbg, seq, wip, dry, cafs, asyn = case
+    kind, nbg, seq, wip, dry, cafs, asyn = case[:7]
+    rebuild = case[7] if len(case) > 7 else None
     prog = build(kind, nbg, seq, wip)
     cfg = {}
     if dry:
         cfg["dry"] = True
     if cafs:
         cfg["cafs"] = True
-    obs = harness.run_case(prog, cfg, async_steps=asyn)
+    obs = harness.run_case(prog, cfg, async_steps=asyn, rebuild=rebuild)
     v = None
     variants = (True, False) if cafs else (True,)
     for var in variants:
@@ -83,6 +92,8 @@ def run_case(case):
     for d, msg in v:
         d["context"] = "%s+%dbg" % (kind, nbg)
         d["async"] = str(bool(asyn))
+        if rebuild:
+            d["model"] = "built-by-hand:" + rebuild
     nt = digest(case) if any(o != "pass" for o in seq) else None
     firstbad = next((o for o in seq if o != "pass"), "none")
     first = sorted(obs["steps"])[0] if obs["steps"] else None
@@ -132,6 +143,28 @@ def cases(tier):
                     continue
                 for wip, dry, cafs in ((0, 0, 0), (0, 1, 0), (0, 0, 1), (1, 0, 0)):
                     yield (kind, nbg, seq, wip, dry, cafs, 0)
+
+
+def api_cases(tier):
+    """LIBRARY USE: the model of every context that holds a rule is assembled by hand through the public constructors
+    (scenarios into the rule first, then its background, then the rule into the feature - and the variant that attaches
+    the rule's background last); plus the parsed form of the new contexts SR / OR (rule without own background)"""
+    quick = tier == "quick"
+    # (contexts with PARAMETRISED inherited background steps are not assembled by hand: see ASSUMPTIONS)
+    ctxs = (("SR", 0), ("SR", 1), ("OR", 1), ("S", 2), ("O", 2))
+    outs = ("pass", "fail", "error", "undefined", "skip") if quick else OUT8
+    for L in (1, 2, 3):
+        for seq in itertools.product(outs, repeat=L):
+            if L == 3 and quick and seq.count("pass") < 1:
+                continue
+            for kind, nbg in ctxs:
+                if L < nbg or (L == nbg and kind not in ("S", "SR")):
+                    continue
+                for rb in (None, "bottom-up", "bottom-up-late"):
+                    if rb is None and kind not in ("SR", "OR"):
+                        continue
+                    for wip, dry, cafs in ((0, 0, 0), (0, 1, 0), (0, 0, 1), (3 if nbg == 2 else 1, 0, 0)):
+                        yield (kind, nbg, seq, wip, dry, cafs, 0, rb)
 
 
 def class_cases(tier):
@@ -356,6 +389,8 @@ def run(ctx):
     ctx.bounds = {"sequence_length": 3 if ctx.quick else "4 (5 in the plain context over 6 outcomes)",
                   "contexts": len(CONTEXTS), "switch_combinations": 8, "history_runs": 2 if ctx.quick else 3}
     ctx.sweep(run_case, cases(ctx.tier), chunk=64, name="outcome sequences x contexts x switches")
+    ctx.sweep(run_case, api_cases(ctx.tier), chunk=64,
+              name="rules without own background (parsed) and models assembled by hand (rule bottom-up, background late)")
     ctx.sweep(run_case, class_cases(ctx.tier), chunk=64, name="exception classes around every except clause of Step.run")
     ctx.sweep(typed_case, typed_cases(ctx.tier), chunk=64,
               name="the same step text under several step types (typed definitions differ or are missing)")
